@@ -4,7 +4,7 @@ from ..harness import ctx, Report, finish
 from ..machine import explore, Panic
 from ..values import Adt, Ref, Cell
 from ..scenario import InvoiceSpec, std_htlcs, U32, U16
-from ..monitors import ExpiryBudget, NoPayAfterRejection
+from ..monitors import ExpiryBudget, NoPayAfterRejection, Coverage
 from . import scen_common
 
 PID = 'C04'
@@ -33,10 +33,10 @@ def main(tier, seed, args):
     configs = []
     n, b = (2, 1) if tier == 'quick' else (3, 2)
     cfg, pc = cfg_symbolic(n, b)
-    configs.append(('expiry[%d htlcs,%d blocks]' % (n, b), cfg, pc, [ExpiryBudget(), NoPayAfterRejection(('expiry',)), StopAfterPay()], {}))
+    configs.append(('expiry[%d htlcs,%d blocks]' % (n, b), cfg, pc, [ExpiryBudget(), NoPayAfterRejection(('expiry',)), StopAfterPay(), Coverage(['pay'])], {}))
     if tier == 'quick':
         cfg, pc = cfg_symbolic(1, 1)
-        configs.insert(0, ('expiry[1 htlc,1 block]', cfg, pc, [ExpiryBudget(), NoPayAfterRejection(('expiry',)), StopAfterPay()], {}))
+        configs.insert(0, ('expiry[1 htlc,1 block]', cfg, pc, [ExpiryBudget(), NoPayAfterRejection(('expiry',)), StopAfterPay(), Coverage(['pay'])], {}))
     scen_common.run_configs(rep, PID, c, configs, budget)
     finish(rep, [c], './check C04 --tier ' + tier)
 
